@@ -86,6 +86,28 @@ func init() {
 	}
 }
 
+func init() {
+	// closed(ch): the channel has been closed
+	specFuncs["closed"] = func(env *Env, n *ECall) Value {
+		if len(n.Args) != 1 {
+			env.fail("closed expects 1 argument")
+		}
+		v := env.eval(n.Args[0])
+		ch, ok := v.(VChan)
+		if !ok || ch.Obj == nil {
+			if ok {
+				return VBool{False}
+			}
+			env.fail("closed: not a channel (%T)", v)
+		}
+		key := "closed:" + ch.Obj.Name
+		if g, have := env.st.Ghost[key]; have {
+			return g
+		}
+		return VBool{env.e.declare(key, BoolSort)}
+	}
+}
+
 func itoa(i int) string {
 	if i == 0 {
 		return "0"
